@@ -250,7 +250,9 @@ def context_case(_):
 
     out = {"evaluations": 0, "states": 1, "transitions": 0, "traces": 0, "violations": [], "outcomes": []}
     ctxs = [("absent", None), ("{}", {}), ("{k:1}", {"k": 1}), ("{k:2}", {"k": 2}), ("{k:1,j:fn}", {"k": 1, "j": fx.g}),
-            ("{j:fn,k:1}", {"j": fx.g, "k": 1}), ("{k:True}", {"k": True})]
+            ("{j:fn,k:1}", {"j": fx.g, "k": 1}), ("{k:True}", {"k": True}),
+            # context arguments whose key is the name of a parameter of the called function
+            ("{a:1}", {"a": 1}), ("{a:2}", {"a": 2})]
     hs = {}
     for n, c in ctxs:
         f = fx.f1 if c is None else fx.f1.with_context_args(c)
